@@ -539,6 +539,29 @@ fn idem_case(ctx: &mut Ctx, s: &SPDC, detail: &str) -> Option<SPDC> {
     }
     Some(Ok(o)) => o,
   };
+  // "everything else kept": only the signal angles, the crystal angle (no poling) or the poling period and sign
+  // (poling), the idler except its waist, and the two waist positions may change; the signal becomes collinear
+  {
+    let names = field_names();
+    let t0: Vec<String> = setup_tokens(s).split(' ').map(|x| x.to_string()).collect();
+    let t1: Vec<String> = setup_tokens(&o1).split(' ').map(|x| x.to_string()).collect();
+    let poled = !matches!(s.pp, PeriodicPoling::Off);
+    let may_change = |n: &str| -> bool {
+      matches!(n, "signal.theta" | "signal.phi" | "signal.dx" | "signal.dy" | "signal.dz" | "zs" | "zi")
+        || (n.starts_with("idler.") && n != "idler.wx" && n != "idler.wy")
+        || (!poled && n == "crystal.theta")
+        || (poled && (n == "pp.period" || n == "pp.sign"))
+    };
+    let changed: Vec<String> = (0..t0.len().min(t1.len()))
+      .filter(|i| t0[*i] != t1[*i] && !may_change(&names[*i]))
+      .map(|i| names[i].clone())
+      .collect();
+    let th = o1.signal.theta_internal().value_unsafe;
+    let collinear = th == 0.0 || (s.crystal_setup.counter_propagation && th == (180. * DEG).value_unsafe);
+    let ok = changed.is_empty() && collinear && t0.len() == t1.len();
+    let why = if !collinear { "signal-not-collinear".to_string() } else { format!("changed:{}", changed.join("+")) };
+    ctx.s("C20.kept", ok, if ok { "kept/ok" } else { "kept/other-field-changed" }, &format!("{} why={}", detail, if ok { "-" } else { &why }));
+  }
   let c1 = o1.clone();
   let o2 = guard(move || c1.try_as_optimum());
   let (ok, why) = match &o2 {
